@@ -190,8 +190,23 @@ def list_to_dict(a):
     return {x[0]:x[1] for x in a}
 
 
+def _dict_literal_value(v):
+    """
+    The value a dictionary literal denotes when it is evaluated: a fresh copy of what was read from the
+    program text. A dictionary literal nested in it was read as a call that nothing evaluates; it
+    stands for its (equally fresh) dictionary.
+    """
+    if isinstance(v, KGCall) and v.a is copy_lambda:
+        v = v.args
+    if isinstance(v, dict):
+        return {k: _dict_literal_value(w) for k, w in v.items()}
+    if isinstance(v, list):
+        return [_dict_literal_value(w) for w in v]
+    return copy.deepcopy(v)
+
+
 # Lambda for copy operations (used in dict parsing)
-copy_lambda = KGLambda(lambda x: copy.deepcopy(x))
+copy_lambda = KGLambda(lambda x: _dict_literal_value(x))
 
 
 def read_list(t, delim, i=0, module=None):
